@@ -1,0 +1,684 @@
+//go:build verif
+
+// Contracts for the weighted graph container and builder (properties C10, C05, C04, C11, C13), checked by govc.
+// Comments and import anchors only; compiled only with -tags verif.
+package graph
+
+import (
+	openfgav1 "github.com/openfga/api/proto/openfga/v1"
+)
+
+var _ *openfgav1.Userset
+
+// ---------------------------------------------------------------------------------------------------------------
+// C10: the container. Abstract view: node map wg.nodes (label -> node), edge lists wg.edges[label].
+
+//@ func (*WeightedAuthorizationModelGraph).GetEdgesFromNode
+//@   props C10 C13
+//@   opaque_strings
+//@   requires wg != nil && node != nil
+//@   ensures list: result0 == wg.edges[node.uniqueLabel]
+//@   ensures found: result1 == has(wg.edges, node.uniqueLabel)
+//@   readonly
+
+//@ func (*WeightedAuthorizationModelGraph).GetNodeByID
+//@   props C10 C13
+//@   opaque_strings
+//@   requires wg != nil
+//@   ensures node: result0 == wg.nodes[uniqueLabel]
+//@   ensures found: result1 == has(wg.nodes, uniqueLabel)
+//@   readonly
+
+// A node as AddNode/GetOrAddNode create it: fields as given, no weights, wildcard seed [T] for a "T:*" node.
+//@ spec newNode(n *WeightedAuthorizationModelNode, uniqueLabel string, label string, nodeType NodeType) bool =
+//@   n != nil && n.uniqueLabel == uniqueLabel && n.label == label && n.nodeType == nodeType && n.weights == nil
+//@   && (nodeType != SpecificTypeWildcard ==> len(n.wildcards) == 0 && arr(n.wildcards) == 0)
+//@   && (nodeType == SpecificTypeWildcard ==> len(n.wildcards) == 1 && n.wildcards[0] == substr(uniqueLabel, 0, len(uniqueLabel) - 2))
+
+// Every node is filed under its own unique label.
+//@ spec wfNodes(wg *WeightedAuthorizationModelGraph) bool =
+//@   forall k string :: wg.nodes[k] != nil ==> wg.nodes[k].uniqueLabel == k
+
+//@ func (*WeightedAuthorizationModelGraph).GetOrAddNode
+//@   props C10 C11
+//@   requires wg != nil && wg.nodes != nil
+//@   requires wildcard_label: nodeType == SpecificTypeWildcard ==> len(uniqueLabel) >= 2
+//@   -- (callers assume every clause at every call, so the set is kept small and non-redundant)
+//@   ensures returns_entry: result != nil && result == wg.nodes[uniqueLabel] && has(wg.nodes, uniqueLabel)
+//@   -- present: the existing node is returned and nothing changes (existing_kept + others_kept: every entry is as before)
+//@   ensures existing_kept: forall k string :: old(wg.nodes[k]) != nil ==> wg.nodes[k] == old(wg.nodes[k])
+//@   ensures existing_not_fresh: old(wg.nodes[uniqueLabel]) != nil ==> !fresh(result) && has(wg.nodes, uniqueLabel) == old(has(wg.nodes, uniqueLabel))
+//@   -- absent: exactly one node is added, with the given fields and the wildcard seed
+//@   ensures absent_added: old(wg.nodes[uniqueLabel]) == nil ==> fresh(result) && newNode(result, uniqueLabel, label, nodeType)
+//@   ensures others_kept: forall k string :: k != uniqueLabel ==> wg.nodes[k] == old(wg.nodes[k]) && has(wg.nodes, k) == old(has(wg.nodes, k))
+//@   -- (no field of an existing node or edge and no edge list is written: the engine derives this frame from the body)
+//@   -- graph and representation invariants are preserved
+//@   ensures nodes_wf: old(wfNodes(wg)) ==> wfNodes(wg) && result.uniqueLabel == uniqueLabel
+//@   ensures separated: old(sepWildcards()) ==> sepWildcards()
+//@   ensures conds_separated: old(sepConds()) ==> sepConds()
+
+// AddNode (exported, not used by the builder). DESIGN C10: Nodes' = Nodes + {l} if absent, unchanged if present.
+//@ func (*WeightedAuthorizationModelGraph).AddNode
+//@   props C10 C11
+//@   requires wg != nil && wg.nodes != nil
+//@   requires wildcard_label: nodeType == SpecificTypeWildcard ==> len(uniqueLabel) >= 2
+//@   ensures separated: old(sepWildcards()) ==> sepWildcards()
+//@   ensures absent_added: old(wg.nodes[uniqueLabel]) == nil ==> fresh(wg.nodes[uniqueLabel]) && newNode(wg.nodes[uniqueLabel], uniqueLabel, label, nodeType)
+//@   -- not stated: "an existing node is left as it is". AddNode (exported, not used by the builder) replaces the entry, so
+//@   -- edges made earlier keep pointing to the old object (observation O-10b, notes/builder.md); C10 speaks of Build only.
+//@   ensures others_kept: forall k string :: k != uniqueLabel ==> wg.nodes[k] == old(wg.nodes[k]) && has(wg.nodes, k) == old(has(wg.nodes, k))
+//@   ensures key_present: has(wg.nodes, uniqueLabel)
+
+// Representation invariant of the edge map: the lists of two different labels never share a backing array, so that
+// appending to one list cannot overwrite an element of another.
+//@ spec sepEdges(wg *WeightedAuthorizationModelGraph) bool =
+//@   forall a string, b string :: a != b && arr(wg.edges[a]) != 0 ==> arr(wg.edges[a]) != arr(wg.edges[b])
+
+// Every edge in a list exists and has a target node (HasEdge/UpsertEdge dereference edge.to).
+//@ spec wfAllEdges(wg *WeightedAuthorizationModelGraph) bool =
+//@   forall k string :: has(wg.edges, k) ==> (forall i int :: 0 <= i && i < len(wg.edges[k]) ==> wg.edges[k][i] != nil && wg.edges[k][i].to != nil)
+
+// The three conjuncts of sepWildcards() (contracts_verif.go), to be proved one by one.
+//@ spec sepWildcardsNN() bool = forall n *WeightedAuthorizationModelNode, m *WeightedAuthorizationModelNode :: allocated(n) && allocated(m) && n != m && arr(n.wildcards) != 0 ==> arr(n.wildcards) != arr(m.wildcards)
+//@ spec sepWildcardsNE() bool = forall n *WeightedAuthorizationModelNode, e *WeightedAuthorizationModelEdge :: allocated(n) && allocated(e) && arr(n.wildcards) != 0 ==> arr(n.wildcards) != arr(e.wildcards)
+//@ spec sepWildcardsEE() bool = forall e *WeightedAuthorizationModelEdge, f *WeightedAuthorizationModelEdge :: allocated(e) && allocated(f) && e != f && arr(e.wildcards) != 0 ==> arr(e.wildcards) != arr(f.wildcards)
+//@ spec sepCondsC() bool = forall e *WeightedAuthorizationModelEdge, f *WeightedAuthorizationModelEdge :: allocated(e) && allocated(f) && e != f && arr(e.conditions) != 0 ==> arr(e.conditions) != arr(f.conditions)
+//@ spec sepCondsE() bool = forall e *WeightedAuthorizationModelEdge, f *WeightedAuthorizationModelEdge :: allocated(e) && allocated(f) && arr(e.conditions) != 0 ==> arr(e.conditions) != arr(f.wildcards)
+//@ spec sepCondsN() bool = forall e *WeightedAuthorizationModelEdge, n *WeightedAuthorizationModelNode :: allocated(e) && allocated(n) && arr(e.conditions) != 0 ==> arr(e.conditions) != arr(n.wildcards)
+
+//@ func (*WeightedAuthorizationModelGraph).AddEdge
+//@   props C10 C11
+//@   opaque_strings
+//@   requires wg != nil && wg.edges != nil
+//@   -- exactly one edge is appended to the list of fromID
+//@   ensures appends_one: len(wg.edges[fromID]) == old(len(wg.edges[fromID])) + 1
+//@   ensures prefix_kept: forall i int :: 0 <= i && i < old(len(wg.edges[fromID])) ==> wg.edges[fromID][i] == old(wg.edges[fromID][i])
+//@   ensures new_edge: let e = wg.edges[fromID][old(len(wg.edges[fromID]))] :: fresh(e) && e.from == wg.nodes[fromID] && e.to == wg.nodes[toID]
+//@                        && e.edgeType == edgeType && e.tuplesetRelation == tuplesetRelation && e.weights == nil && len(e.wildcards) == 0 && arr(e.wildcards) == 0
+//@   ensures conditions_given: len(conditions) > 0 ==> wg.edges[fromID][old(len(wg.edges[fromID]))].conditions == conditions
+//@   ensures conditions_none: len(conditions) == 0 ==> (let c = wg.edges[fromID][old(len(wg.edges[fromID]))].conditions :: len(c) == 1 && c[0] == "none")
+//@   -- every other list is left alone: its header always, its elements when the lists are separated
+//@   ensures other_headers_kept: forall k string :: k != fromID ==> wg.edges[k] == old(wg.edges[k]) && has(wg.edges, k) == old(has(wg.edges, k))
+//@   ensures other_lists_kept: old(sepEdges(wg)) ==> (forall k string :: k != fromID ==> (forall i int :: 0 <= i && i < len(wg.edges[k]) ==> wg.edges[k][i] == old(wg.edges[k][i])))
+//@   ensures old_edges_untouched: forall f *WeightedAuthorizationModelEdge :: !fresh(f) ==> f.from == old(f.from) && f.to == old(f.to) && f.edgeType == old(f.edgeType)
+//@                                  && f.tuplesetRelation == old(f.tuplesetRelation) && f.conditions == old(f.conditions) && f.weights == old(f.weights) && f.wildcards == old(f.wildcards)
+//@   -- representation invariants are preserved
+//@   ensures lists_separated: old(sepEdges(wg)) ==> sepEdges(wg)
+//@   ensures edges_wf: old(wfAllEdges(wg)) && wg.nodes[toID] != nil ==> wfAllEdges(wg)
+//@   ensures separated: old(sepWildcards()) ==> sepWildcards()
+//@   ensures conds_separated: len(conditions) == 0 && old(sepConds()) ==> sepConds()
+
+// The key under which UpsertEdge/HasEdge de-duplicate edges of one source node.
+//@ spec sameEdge(e *WeightedAuthorizationModelEdge, toLabel string, edgeType EdgeType, tuplesetRelation string) bool =
+//@   e.to.uniqueLabel == toLabel && e.edgeType == edgeType && e.tuplesetRelation == tuplesetRelation
+
+//@ spec wfEdgeList(es []*WeightedAuthorizationModelEdge) bool =
+//@   forall i int :: 0 <= i && i < len(es) ==> es[i] != nil && es[i].to != nil
+
+//@ func (*WeightedAuthorizationModelGraph).HasEdge
+//@   props C10 C13
+//@   opaque_strings
+//@   readonly
+//@   requires wg != nil
+//@   requires fromNode != nil ==> wfEdgeList(wg.edges[fromNode.uniqueLabel])
+//@   ensures exact: result == (fromNode != nil && toNode != nil && (exists i int :: 0 <= i && i < len(wg.edges[fromNode.uniqueLabel])
+//@                               && sameEdge(wg.edges[fromNode.uniqueLabel][i], toNode.uniqueLabel, edgeType, tuplesetRelation)))
+//@   loop 1 invariant forall i int :: 0 <= i && i < $i ==> !sameEdge(wg.edges[fromNode.uniqueLabel][i], toNode.uniqueLabel, edgeType, tuplesetRelation)
+
+// Representation invariant of the condition lists: the list of an edge shares its backing array with no other
+// condition list and with no wildcard list (both are []string), so growing it changes nothing else.
+//@ spec sepConds() bool =
+//@      (forall e *WeightedAuthorizationModelEdge, f *WeightedAuthorizationModelEdge :: allocated(e) && allocated(f) && e != f && arr(e.conditions) != 0 ==> arr(e.conditions) != arr(f.conditions))
+//@   && (forall e *WeightedAuthorizationModelEdge, f *WeightedAuthorizationModelEdge :: allocated(e) && allocated(f) && arr(e.conditions) != 0 ==> arr(e.conditions) != arr(f.wildcards))
+//@   && (forall e *WeightedAuthorizationModelEdge, n *WeightedAuthorizationModelNode :: allocated(e) && allocated(n) && arr(e.conditions) != 0 ==> arr(e.conditions) != arr(n.wildcards))
+
+//@ spec condOrNone(c string) string = ite(c == "", "none", c)
+
+//@ spec hasSameEdge(es []*WeightedAuthorizationModelEdge, toLabel string, edgeType EdgeType, tuplesetRelation string) bool =
+//@   exists i int :: 0 <= i && i < len(es) && sameEdge(es[i], toLabel, edgeType, tuplesetRelation)
+
+//@ spec firstSameEdge(es []*WeightedAuthorizationModelEdge, i int, toLabel string, edgeType EdgeType, tuplesetRelation string) bool =
+//@   0 <= i && i < len(es) && sameEdge(es[i], toLabel, edgeType, tuplesetRelation)
+//@   && (forall j int :: 0 <= j && j < i ==> !sameEdge(es[j], toLabel, edgeType, tuplesetRelation))
+
+//@ func (*WeightedAuthorizationModelGraph).UpsertEdge
+//@   props C10 C05 C11
+//@   opaque_strings
+//@   requires wg != nil && wg.edges != nil
+//@   requires fromNode != nil ==> wfEdgeList(wg.edges[fromNode.uniqueLabel])
+//@   -- (callers assume every clause at every call, so the set is kept small; K = (toNode.uniqueLabel, edgeType, tuplesetRelation))
+//@   ensures error_iff_nil_endpoint: (err != nil) <==> (fromNode == nil || toNode == nil)
+//@   ensures error_is_invalid_model: err != nil ==> wraps(err, ErrInvalidModel)
+//@   -- the list of fromNode: nothing is removed or reordered; it grows by one edge iff no edge with key K existed
+//@   ensures prefix_kept: fromNode != nil ==> len(wg.edges[fromNode.uniqueLabel]) >= old(len(wg.edges[fromNode.uniqueLabel]))
+//@                                 && (forall i int :: 0 <= i && i < old(len(wg.edges[fromNode.uniqueLabel])) ==> wg.edges[fromNode.uniqueLabel][i] == old(wg.edges[fromNode.uniqueLabel][i]))
+//@   ensures grows_iff_absent: err == nil ==> len(wg.edges[fromNode.uniqueLabel]) == old(len(wg.edges[fromNode.uniqueLabel])) + ite(old(hasSameEdge(wg.edges[fromNode.uniqueLabel], toNode.uniqueLabel, edgeType, tuplesetRelation)), 0, 1)
+//@   ensures error_keeps_list: err != nil && fromNode != nil ==> len(wg.edges[fromNode.uniqueLabel]) == old(len(wg.edges[fromNode.uniqueLabel]))
+//@   -- absent: the appended edge has the given fields and the condition list [cond or "none"]
+//@   ensures absent_new_edge: err == nil && !old(hasSameEdge(wg.edges[fromNode.uniqueLabel], toNode.uniqueLabel, edgeType, tuplesetRelation))
+//@                                 ==> (let e = wg.edges[fromNode.uniqueLabel][old(len(wg.edges[fromNode.uniqueLabel]))] :: fresh(e) && e.from == fromNode && e.to == toNode
+//@                                        && e.edgeType == edgeType && e.tuplesetRelation == tuplesetRelation && e.weights == nil && len(e.wildcards) == 0 && arr(e.wildcards) == 0
+//@                                        && len(e.conditions) == 1 && e.conditions[0] == condOrNone(condition))
+//@   -- present: the first edge with key K gains the condition iff it does not have it yet
+//@   -- (one existential per call instead of clauses quantified over the index: the latter form a matching loop in callers)
+//@   ensures existing_upserts_first: err == nil && old(hasSameEdge(wg.edges[fromNode.uniqueLabel], toNode.uniqueLabel, edgeType, tuplesetRelation)) ==> (exists i int :: old(firstSameEdge(wg.edges[fromNode.uniqueLabel], i, toNode.uniqueLabel, edgeType, tuplesetRelation))
+//@                                 && (let e = old(wg.edges[fromNode.uniqueLabel][i]), c = condOrNone(condition), n = old(len(wg.edges[fromNode.uniqueLabel][i].conditions)) ::
+//@                                        (old(member(wg.edges[fromNode.uniqueLabel][i].conditions, c)) ==> e.conditions == old(wg.edges[fromNode.uniqueLabel][i].conditions))
+//@                                     && (!old(member(wg.edges[fromNode.uniqueLabel][i].conditions, c)) ==> len(e.conditions) == n + 1 && e.conditions[n] == c
+//@                                            && (forall j int :: 0 <= j && j < n ==> e.conditions[j] == old(wg.edges[fromNode.uniqueLabel][i].conditions[j])))
+//@                                     && (forall f *WeightedAuthorizationModelEdge :: !fresh(f) && f != e ==> f.conditions == old(f.conditions))))
+//@   -- no condition list changes in the other cases; elements of unchanged lists stay when the condition lists are separated
+//@   ensures conditions_kept_otherwise: err != nil || !old(hasSameEdge(wg.edges[fromNode.uniqueLabel], toNode.uniqueLabel, edgeType, tuplesetRelation))
+//@                                 ==> (forall f *WeightedAuthorizationModelEdge :: !fresh(f) ==> f.conditions == old(f.conditions))
+//@   ensures conditions_only_grow: old(sepConds()) ==> (forall f *WeightedAuthorizationModelEdge :: old(allocated(f)) ==> len(f.conditions) >= old(len(f.conditions))
+//@                                 && (forall j int :: 0 <= j && j < old(len(f.conditions)) ==> f.conditions[j] == old(f.conditions[j])))
+//@   ensures conditions_kept_elsewhere: old(sepConds()) ==> (forall f *WeightedAuthorizationModelEdge :: old(allocated(f)) && f.conditions == old(f.conditions)
+//@                                 ==> (forall j int :: 0 <= j && j < len(f.conditions) ==> f.conditions[j] == old(f.conditions[j])))
+//@   -- afterwards an edge with key K exists and carries the condition
+//@   ensures has_edge_after: err == nil ==> hasSameEdge(wg.edges[fromNode.uniqueLabel], toNode.uniqueLabel, edgeType, tuplesetRelation)
+//@   ensures condition_present: err == nil ==> (exists i int :: 0 <= i && i < len(wg.edges[fromNode.uniqueLabel]) && sameEdge(wg.edges[fromNode.uniqueLabel][i], toNode.uniqueLabel, edgeType, tuplesetRelation) && member(wg.edges[fromNode.uniqueLabel][i].conditions, condOrNone(condition)))
+//@   -- frame: every other list is left alone (header always, elements when the lists are separated), wildcard lists are not touched
+//@   -- (from/to/edgeType/tuplesetRelation/weights/wildcards of existing edges and the node map are not written: frame derived by the engine)
+//@   ensures other_headers_kept: forall k string :: (err != nil || k != fromNode.uniqueLabel) ==> wg.edges[k] == old(wg.edges[k]) && has(wg.edges, k) == old(has(wg.edges, k))
+//@   ensures other_lists_kept: old(sepEdges(wg)) ==> (forall k string :: (err != nil || k != fromNode.uniqueLabel) ==> (forall i int :: 0 <= i && i < len(wg.edges[k]) ==> wg.edges[k][i] == old(wg.edges[k][i])))
+//@   ensures wildcards_untouched_e: old(sepCondsE()) ==> (forall f *WeightedAuthorizationModelEdge :: old(allocated(f)) ==> (forall j int :: 0 <= j && j < len(f.wildcards) ==> f.wildcards[j] == old(f.wildcards[j])))
+//@   ensures wildcards_untouched_n: old(sepCondsN()) ==> (forall n *WeightedAuthorizationModelNode :: old(allocated(n)) ==> (forall j int :: 0 <= j && j < len(n.wildcards) ==> n.wildcards[j] == old(n.wildcards[j])))
+//@   -- graph and representation invariants are preserved
+//@   ensures list_wf: err == nil ==> wfEdgeList(wg.edges[fromNode.uniqueLabel])
+//@   ensures lists_separated: old(sepEdges(wg)) ==> sepEdges(wg)
+//@   ensures separated_nn: old(sepWildcardsNN()) ==> sepWildcardsNN()
+//@   ensures separated_ne: old(sepWildcardsNE()) ==> sepWildcardsNE()
+//@   ensures separated_ee: old(sepWildcardsEE()) ==> sepWildcardsEE()
+//@   ensures conds_separated_c: old(sepCondsC()) ==> sepCondsC()
+//@   ensures conds_separated_e: old(sepCondsE()) ==> sepCondsE()
+//@   ensures conds_separated_n: old(sepCondsN()) ==> sepCondsN()
+//@   loop 1 invariant forall i int :: 0 <= i && i < $i ==> !sameEdge(wg.edges[fromNode.uniqueLabel][i], toNode.uniqueLabel, edgeType, tuplesetRelation)
+//@   loop 1.1 invariant forall i int :: 0 <= i && i < $i_1 ==> !sameEdge(wg.edges[fromNode.uniqueLabel][i], toNode.uniqueLabel, edgeType, tuplesetRelation)
+//@   loop 1.1 invariant sameEdge(wg.edges[fromNode.uniqueLabel][$i_1], toNode.uniqueLabel, edgeType, tuplesetRelation)
+//@   loop 1.1 invariant forall j int :: 0 <= j && j < $i ==> wg.edges[fromNode.uniqueLabel][$i_1].conditions[j] != condOrNone(condition)
+
+// ---------------------------------------------------------------------------------------------------------------
+// C10: the builder. Well-formedness of a graph under construction (specs above): wfNodes - every node is filed under its own unique
+// label; wfEdgeList/wfAllEdges - every edge in a list exists and has a target node. Heavy invariants are stated as `old(I) ==> I`
+// so that only the obligations that need them pay for them; see NOTES.md for what is carried through which function.
+//@ func (*WeightedAuthorizationModelGraphBuilder).parseComputed
+//@   props C10 C11 C13
+//@   requires wg != nil && wg.nodes != nil && wg.edges != nil && wfNodes(wg)
+//@   requires parent_in_graph: parentNode != nil && wg.nodes[parentNode.uniqueLabel] == parentNode
+//@   -- exactly one edge is appended to the parent's list, whatever the list already contains
+//@   ensures appends_one: len(wg.edges[parentNode.uniqueLabel]) == old(len(wg.edges[parentNode.uniqueLabel])) + 1
+//@   ensures prefix_kept: forall i int :: 0 <= i && i < old(len(wg.edges[parentNode.uniqueLabel])) ==> wg.edges[parentNode.uniqueLabel][i] == old(wg.edges[parentNode.uniqueLabel][i])
+//@   ensures edge_ends: let e = wg.edges[parentNode.uniqueLabel][old(len(wg.edges[parentNode.uniqueLabel]))] ::
+//@                        fresh(e) && e.from == parentNode && e.to != nil && e.to == wg.nodes[typeDef.GetType() + "#" + relation] && e.to.uniqueLabel == typeDef.GetType() + "#" + relation
+//@   ensures edge_kind: let e = wg.edges[parentNode.uniqueLabel][old(len(wg.edges[parentNode.uniqueLabel]))] ::
+//@                        e.edgeType == ite(parentNode.nodeType == SpecificTypeAndRelation && e.to.nodeType == SpecificTypeAndRelation, ComputedEdge, RewriteEdge)
+//@   ensures edge_plain: let e = wg.edges[parentNode.uniqueLabel][old(len(wg.edges[parentNode.uniqueLabel]))] ::
+//@                        e.tuplesetRelation == "" && len(e.conditions) == 1 && e.conditions[0] == "none" && e.weights == nil && len(e.wildcards) == 0
+//@   -- the target node is created when absent (a relation node), reused otherwise
+//@   ensures target_added: old(wg.nodes[typeDef.GetType() + "#" + relation]) == nil ==> fresh(wg.nodes[typeDef.GetType() + "#" + relation])
+//@                           && newNode(wg.nodes[typeDef.GetType() + "#" + relation], typeDef.GetType() + "#" + relation, typeDef.GetType() + "#" + relation, SpecificTypeAndRelation)
+//@   ensures target_reused: old(wg.nodes[typeDef.GetType() + "#" + relation]) != nil ==> wg.nodes[typeDef.GetType() + "#" + relation] == old(wg.nodes[typeDef.GetType() + "#" + relation])
+//@   ensures other_nodes_kept: forall k string :: k != typeDef.GetType() + "#" + relation ==> wg.nodes[k] == old(wg.nodes[k]) && has(wg.nodes, k) == old(has(wg.nodes, k))
+//@   ensures other_headers_kept: forall k string :: k != parentNode.uniqueLabel ==> wg.edges[k] == old(wg.edges[k]) && has(wg.edges, k) == old(has(wg.edges, k))
+//@   ensures other_lists_kept: old(sepEdges(wg)) ==> (forall k string :: k != parentNode.uniqueLabel ==> (forall i int :: 0 <= i && i < len(wg.edges[k]) ==> wg.edges[k][i] == old(wg.edges[k][i])))
+//@   -- (no field of an existing node or edge is written: the engine derives this frame from the bodies of the callees)
+//@   -- graph and representation invariants are preserved
+//@   ensures graph_ok_nodes: wfNodes(wg)
+//@   ensures graph_ok_edges: old(wfAllEdges(wg)) ==> wfAllEdges(wg)
+//@   ensures lists_separated: old(sepEdges(wg)) ==> sepEdges(wg)
+//@   ensures separated: old(sepWildcards()) ==> sepWildcards()
+//@   ensures conds_separated: old(sepConds()) ==> sepConds()
+
+// ---------------------------------------------------------------------------------------------------------------
+// C05: typeAndRelationExists = "some type definition named typeName defines the relation".
+//@ spec definesRelation(model *openfgav1.AuthorizationModel, typeName string, relation string) bool =
+//@   exists i int :: 0 <= i && i < len(model.GetTypeDefinitions()) && model.GetTypeDefinitions()[i].GetType() == typeName
+//@                     && has(model.GetTypeDefinitions()[i].GetRelations(), relation)
+
+//@ func typeAndRelationExists
+//@   props C05 C13
+//@   opaque_strings
+//@   readonly
+//@   ensures exact: result == definesRelation(model, typeName, relation)
+//@   loop 1 invariant forall i int :: 0 <= i && i < $i ==> !(model.GetTypeDefinitions()[i].GetType() == typeName && has(model.GetTypeDefinitions()[i].GetRelations(), relation))
+
+// ---------------------------------------------------------------------------------------------------------------
+// C04: resolving a tuple cycle. A dependant's weight map w is rewritten to subst(w, ref -> sub): the placeholder key
+// ref ("R#"+node) is replaced by the keys of the reference node's map sub, everything else is kept.
+//@ spec substHas(w map[string]int, ref string, sub map[string]int, k string) bool =
+//@   (has(w, k) && k != ref) || (has(w, ref) && has(sub, k))
+
+//@ spec weightsInRange(w map[string]int) bool = forall k string :: has(w, k) ==> 0 <= w[k] && w[k] <= Infinite
+
+// the dependency list of a node: edges with a source node that is filed in the graph
+//@ spec wfDeps(wg *WeightedAuthorizationModelGraph, d []*WeightedAuthorizationModelEdge) bool =
+//@   forall j int :: 0 <= j && j < len(d) ==> d[j] != nil && d[j].from != nil && wg.nodes[d[j].from.uniqueLabel] != nil
+
+//@ spec isDependantNode(wg *WeightedAuthorizationModelGraph, d []*WeightedAuthorizationModelEdge, upto int, n *WeightedAuthorizationModelNode) bool =
+//@   exists j int :: 0 <= j && j < upto && wg.nodes[d[j].from.uniqueLabel] == n
+
+//@ func (*WeightedAuthorizationModelGraph).fixDependantNodesWeight
+//@   props C04 C11
+//@   -- (only compares strings, but is verified with native strings: an opaque_strings callee of a native caller in the same govc run
+//@   --  makes the engine panic "Havoc of unregistered component E$OStr.")
+//@   requires wg != nil && wg.nodes[nodeCycle] != nil && wfDeps(wg, tupleCycleDependencies[nodeCycle]) && sepWildcards()
+//@   requires no_self_reference: !has(wg.nodes[nodeCycle].weights, referenceNodeID)
+//@   requires weightsInRange(wg.nodes[nodeCycle].weights)
+//@   requires forall j int :: 0 <= j && j < len(tupleCycleDependencies[nodeCycle]) ==> weightsInRange(wg.nodes[tupleCycleDependencies[nodeCycle][j].from.uniqueLabel].weights)
+//@   ensures separated: sepWildcards()
+//@   ensures dependants_substituted: forall n *WeightedAuthorizationModelNode, k string :: old(allocated(n)) && old(isDependantNode(wg, tupleCycleDependencies[nodeCycle], len(tupleCycleDependencies[nodeCycle]), n))
+//@                              ==> (has(n.weights, k) <==> old(substHas(n.weights, referenceNodeID, wg.nodes[nodeCycle].weights, k)))
+//@   ensures no_placeholder_left: forall n *WeightedAuthorizationModelNode :: old(allocated(n)) && old(isDependantNode(wg, tupleCycleDependencies[nodeCycle], len(tupleCycleDependencies[nodeCycle]), n))
+//@                              ==> !has(n.weights, referenceNodeID)
+//@   ensures value_bounds_kept_key: forall n *WeightedAuthorizationModelNode, k string :: old(allocated(n)) && old(isDependantNode(wg, tupleCycleDependencies[nodeCycle], len(tupleCycleDependencies[nodeCycle]), n)) && old(has(n.weights, k)) && k != referenceNodeID
+//@                              ==> old(n.weights[k]) <= n.weights[k]
+//@   ensures value_bounds_substituted: forall n *WeightedAuthorizationModelNode, k string :: old(allocated(n)) && old(isDependantNode(wg, tupleCycleDependencies[nodeCycle], len(tupleCycleDependencies[nodeCycle]), n)) && old(has(n.weights, referenceNodeID)) && old(has(wg.nodes[nodeCycle].weights, k))
+//@                              ==> old(wg.nodes[nodeCycle].weights[k]) <= n.weights[k]
+//@   ensures value_attained: forall n *WeightedAuthorizationModelNode, k string :: old(allocated(n)) && old(isDependantNode(wg, tupleCycleDependencies[nodeCycle], len(tupleCycleDependencies[nodeCycle]), n)) && has(n.weights, k)
+//@                              ==> (old(has(n.weights, k)) && k != referenceNodeID && n.weights[k] == old(n.weights[k])) || (old(has(n.weights, referenceNodeID) && has(wg.nodes[nodeCycle].weights, k)) && n.weights[k] == old(wg.nodes[nodeCycle].weights[k]))
+//@   -- (dropped: membership of the dependants' wildcard lists = old + reference node's; the callee's `union` clause quantifies over the
+//@   --  element string only and gives the solvers no trigger, see NOTES.md)
+//@   ensures others_wildcards_untouched: forall n *WeightedAuthorizationModelNode :: old(allocated(n)) && !old(isDependantNode(wg, tupleCycleDependencies[nodeCycle], len(tupleCycleDependencies[nodeCycle]), n)) ==> (forall i int :: 0 <= i && i < len(n.wildcards) ==> n.wildcards[i] == old(n.wildcards[i]))
+//@   ensures others_untouched: forall n *WeightedAuthorizationModelNode :: old(allocated(n)) && !old(isDependantNode(wg, tupleCycleDependencies[nodeCycle], len(tupleCycleDependencies[nodeCycle]), n))
+//@                              ==> n.weights == old(n.weights) && n.wildcards == old(n.wildcards)
+//@   ensures in_range: forall n *WeightedAuthorizationModelNode :: old(allocated(n)) && old(isDependantNode(wg, tupleCycleDependencies[nodeCycle], len(tupleCycleDependencies[nodeCycle]), n)) ==> weightsInRange(n.weights)
+//@   loop 1 invariant sepWildcards()
+//@   loop 1 invariant weightsInRange(wg.nodes[nodeCycle].weights)
+//@   loop 1 invariant forall j int :: 0 <= j && j < len(tupleCycleDependencies[nodeCycle]) ==> weightsInRange(wg.nodes[tupleCycleDependencies[nodeCycle][j].from.uniqueLabel].weights)
+//@   loop 1 invariant closed: forall n *WeightedAuthorizationModelNode :: old(allocated(n)) ==> n.weights == nil || allocated(n.weights)
+//@   loop 1 invariant keys_from_subst: forall n *WeightedAuthorizationModelNode, k string :: old(allocated(n)) && has(n.weights, k) && k != referenceNodeID
+//@                              ==> old(substHas(n.weights, referenceNodeID, wg.nodes[nodeCycle].weights, k))
+//@   loop 1 invariant placeholder_only_old: forall n *WeightedAuthorizationModelNode :: old(allocated(n)) && has(n.weights, referenceNodeID) ==> old(has(n.weights, referenceNodeID))
+//@   loop 1 invariant ref_values_kept: forall k string :: wg.nodes[nodeCycle].weights[k] == old(wg.nodes[nodeCycle].weights[k])
+//@   loop 1 invariant v_kept_key: forall n *WeightedAuthorizationModelNode, k string :: old(allocated(n)) && old(has(n.weights, k)) && k != referenceNodeID ==> old(n.weights[k]) <= n.weights[k]
+//@   loop 1 invariant v_substituted: forall n *WeightedAuthorizationModelNode, k string :: old(allocated(n)) && isDependantNode(wg, tupleCycleDependencies[nodeCycle], $i, n) && old(has(n.weights, referenceNodeID)) && old(has(wg.nodes[nodeCycle].weights, k))
+//@                              ==> old(wg.nodes[nodeCycle].weights[k]) <= n.weights[k]
+//@   loop 1 invariant v_attained: forall n *WeightedAuthorizationModelNode, k string :: old(allocated(n)) && has(n.weights, k) && k != referenceNodeID
+//@                              ==> (old(has(n.weights, k)) && n.weights[k] == old(n.weights[k])) || (old(has(n.weights, referenceNodeID) && has(wg.nodes[nodeCycle].weights, k)) && n.weights[k] == old(wg.nodes[nodeCycle].weights[k]))
+//@   loop 1 invariant wc_untouched: forall n *WeightedAuthorizationModelNode :: old(allocated(n)) && !isDependantNode(wg, tupleCycleDependencies[nodeCycle], $i, n) ==> (forall i int :: 0 <= i && i < len(n.wildcards) ==> n.wildcards[i] == old(n.wildcards[i]))
+//@   loop 1 invariant sub_only: forall n *WeightedAuthorizationModelNode, k string :: old(allocated(n)) && isDependantNode(wg, tupleCycleDependencies[nodeCycle], $i, n) && has(n.weights, k)
+//@                              ==> old(substHas(n.weights, referenceNodeID, wg.nodes[nodeCycle].weights, k))
+//@   loop 1 invariant sub_all: forall n *WeightedAuthorizationModelNode, k string :: old(allocated(n)) && isDependantNode(wg, tupleCycleDependencies[nodeCycle], $i, n) && old(substHas(n.weights, referenceNodeID, wg.nodes[nodeCycle].weights, k))
+//@                              ==> has(n.weights, k)
+//@   loop 1 invariant forall n *WeightedAuthorizationModelNode :: old(allocated(n)) && isDependantNode(wg, tupleCycleDependencies[nodeCycle], $i, n) ==> !has(n.weights, referenceNodeID)
+//@   loop 1 invariant forall n *WeightedAuthorizationModelNode :: old(allocated(n)) && !isDependantNode(wg, tupleCycleDependencies[nodeCycle], $i, n) ==> n.weights == old(n.weights) && n.wildcards == old(n.wildcards)
+//@   loop 1 invariant forall k string :: has(wg.nodes[nodeCycle].weights, k) == old(has(wg.nodes[nodeCycle].weights, k))
+//@   loop 1 invariant forall m map[string]int, k string :: old(allocated(m)) ==> has(m, k) == old(has(m, k)) && m[k] == old(m[k])
+//@   loop 1.1 invariant fresh(nodeWeights) && nodeWeights != nil && weightsInRange(nodeWeights)
+//@   loop 1.1 invariant forall k string :: has(nodeWeights, k) <==> (($visited[k] && k != referenceNodeID) || ($visited[referenceNodeID] && has(wg.nodes[nodeCycle].weights, k)))
+//@   loop 1.1 invariant forall k string :: $visited[k] ==> has(fromNode.weights, k)
+//@   loop 1.1 invariant forall m map[string]int, k string :: m != nodeWeights ==> has(m, k) == pre(has(m, k)) && m[k] == pre(m[k])
+//@   loop 1.1 invariant forall k string :: $visited[k] && k != referenceNodeID ==> fromNode.weights[k] <= nodeWeights[k]
+//@   loop 1.1 invariant forall k string :: $visited[referenceNodeID] && has(wg.nodes[nodeCycle].weights, k) ==> wg.nodes[nodeCycle].weights[k] <= nodeWeights[k]
+//@   loop 1.1 invariant forall k string :: has(nodeWeights, k) ==> ($visited[k] && k != referenceNodeID && nodeWeights[k] == fromNode.weights[k]) || ($visited[referenceNodeID] && has(wg.nodes[nodeCycle].weights, k) && nodeWeights[k] == wg.nodes[nodeCycle].weights[k])
+//@   loop 1.1.1 invariant fresh(nodeWeights) && nodeWeights != nil && weightsInRange(nodeWeights) && key1 == referenceNodeID
+//@   loop 1.1.1 invariant forall k string :: has(nodeWeights, k) <==> (($visited_1_1[k] && k != referenceNodeID) || $visited[k])
+//@   loop 1.1.1 invariant forall k string :: $visited[k] ==> has(wg.nodes[nodeCycle].weights, k)
+//@   loop 1.1.1 invariant forall m map[string]int, k string :: m != nodeWeights ==> has(m, k) == pre(has(m, k)) && m[k] == pre(m[k])
+//@   loop 1.1.1 invariant forall k string :: $visited_1_1[k] && k != referenceNodeID ==> fromNode.weights[k] <= nodeWeights[k]
+//@   loop 1.1.1 invariant forall k string :: $visited[k] ==> wg.nodes[nodeCycle].weights[k] <= nodeWeights[k]
+//@   loop 1.1.1 invariant forall k string :: has(nodeWeights, k) ==> ($visited_1_1[k] && k != referenceNodeID && nodeWeights[k] == fromNode.weights[k]) || ($visited[k] && nodeWeights[k] == wg.nodes[nodeCycle].weights[k])
+
+// fixDependantEdgesWeight: the same substitution on the weight maps of the dependant edges. While doing so the function may file an edge
+// under further labels of tupleCycleDependencies (append), so the lists of that map must not share backing arrays (sepDeps).
+//@ spec isDependantEdge(d []*WeightedAuthorizationModelEdge, upto int, e *WeightedAuthorizationModelEdge) bool =
+//@   exists j int :: 0 <= j && j < upto && d[j] == e
+
+//@ spec sepDeps(m map[string][]*WeightedAuthorizationModelEdge) bool =
+//@   forall a string, b string :: a != b && arr(m[a]) != 0 ==> arr(m[a]) != arr(m[b])
+
+//@ func (*WeightedAuthorizationModelGraph).fixDependantEdgesWeight
+//@   props C04 C11
+//@   requires wg != nil && wg.nodes[nodeCycle] != nil && tupleCycleDependencies != nil && wfEdges(tupleCycleDependencies[nodeCycle]) && sepWildcards() && sepDeps(tupleCycleDependencies)
+//@   requires no_self_reference: !has(wg.nodes[nodeCycle].weights, referenceNodeID) && referenceNodeID == "R#" + nodeCycle
+//@   requires weightsInRange(wg.nodes[nodeCycle].weights)
+//@   requires forall j int :: 0 <= j && j < len(tupleCycleDependencies[nodeCycle]) ==> weightsInRange(tupleCycleDependencies[nodeCycle][j].weights)
+//@   ensures separated: sepWildcards()
+//@   ensures dependants_substituted: forall e *WeightedAuthorizationModelEdge, k string :: old(allocated(e)) && old(isDependantEdge(tupleCycleDependencies[nodeCycle], len(tupleCycleDependencies[nodeCycle]), e))
+//@                              ==> (has(e.weights, k) <==> old(substHas(e.weights, referenceNodeID, wg.nodes[nodeCycle].weights, k)))
+//@   ensures no_placeholder_left: forall e *WeightedAuthorizationModelEdge :: old(allocated(e)) && old(isDependantEdge(tupleCycleDependencies[nodeCycle], len(tupleCycleDependencies[nodeCycle]), e)) ==> !has(e.weights, referenceNodeID)
+//@   ensures value_bounds_kept_key: forall e *WeightedAuthorizationModelEdge, k string :: old(allocated(e)) && old(isDependantEdge(tupleCycleDependencies[nodeCycle], len(tupleCycleDependencies[nodeCycle]), e)) && old(has(e.weights, k)) && k != referenceNodeID
+//@                              ==> old(e.weights[k]) <= e.weights[k]
+//@   ensures value_bounds_substituted: forall e *WeightedAuthorizationModelEdge, k string :: old(allocated(e)) && old(isDependantEdge(tupleCycleDependencies[nodeCycle], len(tupleCycleDependencies[nodeCycle]), e)) && old(has(e.weights, referenceNodeID)) && old(has(wg.nodes[nodeCycle].weights, k))
+//@                              ==> old(wg.nodes[nodeCycle].weights[k]) <= e.weights[k]
+//@   ensures value_attained: forall e *WeightedAuthorizationModelEdge, k string :: old(allocated(e)) && old(isDependantEdge(tupleCycleDependencies[nodeCycle], len(tupleCycleDependencies[nodeCycle]), e)) && has(e.weights, k)
+//@                              ==> (old(has(e.weights, k)) && k != referenceNodeID && e.weights[k] == old(e.weights[k])) || (old(has(e.weights, referenceNodeID) && has(wg.nodes[nodeCycle].weights, k)) && e.weights[k] == old(wg.nodes[nodeCycle].weights[k]))
+//@   ensures others_untouched: forall e *WeightedAuthorizationModelEdge :: old(allocated(e)) && !old(isDependantEdge(tupleCycleDependencies[nodeCycle], len(tupleCycleDependencies[nodeCycle]), e))
+//@                              ==> e.weights == old(e.weights) && e.wildcards == old(e.wildcards)
+//@   ensures deps_kept: tupleCycleDependencies[nodeCycle] == old(tupleCycleDependencies[nodeCycle]) && (forall j int :: 0 <= j && j < len(tupleCycleDependencies[nodeCycle]) ==> tupleCycleDependencies[nodeCycle][j] == old(tupleCycleDependencies[nodeCycle][j]))
+//@   ensures deps_separated: sepDeps(tupleCycleDependencies)
+//@   ensures in_range: forall j int :: 0 <= j && j < len(tupleCycleDependencies[nodeCycle]) ==> weightsInRange(tupleCycleDependencies[nodeCycle][j].weights)
+//@   ensures old_maps_untouched: forall m map[string]int, k string :: old(allocated(m)) ==> has(m, k) == old(has(m, k)) && m[k] == old(m[k])
+//@   loop 1 invariant sepWildcards() && sepDeps(tupleCycleDependencies)
+//@   loop 1 invariant closed_deps: forall a string :: arr(tupleCycleDependencies[a]) == 0 || allocated(arr(tupleCycleDependencies[a]))
+//@   loop 1 invariant no_self: !has(wg.nodes[nodeCycle].weights, referenceNodeID)
+//@   loop 1 invariant deps_kept: tupleCycleDependencies[nodeCycle] == old(tupleCycleDependencies[nodeCycle]) && (forall j int :: 0 <= j && j < len(tupleCycleDependencies[nodeCycle]) ==> tupleCycleDependencies[nodeCycle][j] == old(tupleCycleDependencies[nodeCycle][j]))
+//@   loop 1 invariant forall j int :: 0 <= j && j < len(tupleCycleDependencies[nodeCycle]) ==> weightsInRange(tupleCycleDependencies[nodeCycle][j].weights)
+//@   loop 1 invariant closed: forall e *WeightedAuthorizationModelEdge :: old(allocated(e)) ==> e.weights == nil || allocated(e.weights)
+//@   loop 1 invariant keys_from_subst: forall e *WeightedAuthorizationModelEdge, k string :: old(allocated(e)) && has(e.weights, k) && k != referenceNodeID
+//@                              ==> old(substHas(e.weights, referenceNodeID, wg.nodes[nodeCycle].weights, k))
+//@   loop 1 invariant placeholder_only_old: forall e *WeightedAuthorizationModelEdge :: old(allocated(e)) && has(e.weights, referenceNodeID) ==> old(has(e.weights, referenceNodeID))
+//@   loop 1 invariant v_kept_key: forall e *WeightedAuthorizationModelEdge, k string :: old(allocated(e)) && old(has(e.weights, k)) && k != referenceNodeID ==> old(e.weights[k]) <= e.weights[k]
+//@   loop 1 invariant v_substituted: forall e *WeightedAuthorizationModelEdge, k string :: old(allocated(e)) && isDependantEdge(tupleCycleDependencies[nodeCycle], $i, e) && old(has(e.weights, referenceNodeID)) && old(has(wg.nodes[nodeCycle].weights, k))
+//@                              ==> old(wg.nodes[nodeCycle].weights[k]) <= e.weights[k]
+//@   loop 1 invariant v_attained: forall e *WeightedAuthorizationModelEdge, k string :: old(allocated(e)) && has(e.weights, k) && k != referenceNodeID
+//@                              ==> (old(has(e.weights, k)) && e.weights[k] == old(e.weights[k])) || (old(has(e.weights, referenceNodeID) && has(wg.nodes[nodeCycle].weights, k)) && e.weights[k] == old(wg.nodes[nodeCycle].weights[k]))
+//@   loop 1 invariant sub_only: forall e *WeightedAuthorizationModelEdge, k string :: old(allocated(e)) && isDependantEdge(tupleCycleDependencies[nodeCycle], $i, e) && has(e.weights, k)
+//@                              ==> old(substHas(e.weights, referenceNodeID, wg.nodes[nodeCycle].weights, k))
+//@   loop 1 invariant sub_all: forall e *WeightedAuthorizationModelEdge, k string :: old(allocated(e)) && isDependantEdge(tupleCycleDependencies[nodeCycle], $i, e) && old(substHas(e.weights, referenceNodeID, wg.nodes[nodeCycle].weights, k))
+//@                              ==> has(e.weights, k)
+//@   loop 1 invariant forall e *WeightedAuthorizationModelEdge :: old(allocated(e)) && isDependantEdge(tupleCycleDependencies[nodeCycle], $i, e) ==> !has(e.weights, referenceNodeID)
+//@   loop 1 invariant forall e *WeightedAuthorizationModelEdge :: old(allocated(e)) && !isDependantEdge(tupleCycleDependencies[nodeCycle], $i, e) ==> e.weights == old(e.weights) && e.wildcards == old(e.wildcards)
+//@   loop 1 invariant forall m map[string]int, k string :: old(allocated(m)) ==> has(m, k) == old(has(m, k)) && m[k] == old(m[k])
+//@   loop 1.1 invariant sep_w: sepWildcards()
+//@   loop 1.1 invariant sep_d: sepDeps(tupleCycleDependencies)
+//@   loop 1.1 invariant deps_header: tupleCycleDependencies[nodeCycle] == old(tupleCycleDependencies[nodeCycle])
+//@   loop 1.1 invariant deps_elems: forall j int :: 0 <= j && j < len(tupleCycleDependencies[nodeCycle]) ==> tupleCycleDependencies[nodeCycle][j] == old(tupleCycleDependencies[nodeCycle][j])
+//@   loop 1.1 invariant closed_deps: forall a string :: arr(tupleCycleDependencies[a]) == 0 || allocated(arr(tupleCycleDependencies[a]))
+//@   loop 1.1 invariant no_self: !has(wg.nodes[nodeCycle].weights, referenceNodeID)
+//@   loop 1.1 invariant fresh(edgeWeights) && edgeWeights != nil && weightsInRange(edgeWeights)
+//@   loop 1.1 invariant forall k string :: has(edgeWeights, k) <==> (($visited[k] && k != referenceNodeID) || ($visited[referenceNodeID] && has(wg.nodes[nodeCycle].weights, k)))
+//@   loop 1.1 invariant forall k string :: $visited[k] ==> has(edge.weights, k)
+//@   loop 1.1 invariant forall m map[string]int, k string :: m != edgeWeights ==> has(m, k) == pre(has(m, k)) && m[k] == pre(m[k])
+//@   loop 1.1 invariant forall k string :: $visited[k] && k != referenceNodeID ==> edge.weights[k] <= edgeWeights[k]
+//@   loop 1.1 invariant forall k string :: $visited[referenceNodeID] && has(wg.nodes[nodeCycle].weights, k) ==> wg.nodes[nodeCycle].weights[k] <= edgeWeights[k]
+//@   loop 1.1 invariant forall k string :: has(edgeWeights, k) ==> ($visited[k] && k != referenceNodeID && edgeWeights[k] == edge.weights[k]) || ($visited[referenceNodeID] && has(wg.nodes[nodeCycle].weights, k) && edgeWeights[k] == wg.nodes[nodeCycle].weights[k])
+//@   loop 1.1.1 invariant sep_w: sepWildcards()
+//@   loop 1.1.1 invariant sep_d: sepDeps(tupleCycleDependencies)
+//@   loop 1.1.1 invariant deps_header: tupleCycleDependencies[nodeCycle] == old(tupleCycleDependencies[nodeCycle])
+//@   loop 1.1.1 invariant deps_elems: forall j int :: 0 <= j && j < len(tupleCycleDependencies[nodeCycle]) ==> tupleCycleDependencies[nodeCycle][j] == old(tupleCycleDependencies[nodeCycle][j])
+//@   loop 1.1.1 invariant closed_deps: forall a string :: arr(tupleCycleDependencies[a]) == 0 || allocated(arr(tupleCycleDependencies[a]))
+//@   loop 1.1.1 invariant no_self: !has(wg.nodes[nodeCycle].weights, referenceNodeID)
+//@   loop 1.1.1 invariant fresh(edgeWeights) && edgeWeights != nil && weightsInRange(edgeWeights) && key1 == referenceNodeID
+//@   loop 1.1.1 invariant forall k string :: has(edgeWeights, k) <==> (($visited_1_1[k] && k != referenceNodeID) || $visited[k])
+//@   loop 1.1.1 invariant forall k string :: $visited[k] ==> has(wg.nodes[nodeCycle].weights, k)
+//@   loop 1.1.1 invariant forall m map[string]int, k string :: m != edgeWeights ==> has(m, k) == pre(has(m, k)) && m[k] == pre(m[k])
+//@   loop 1.1.1 invariant forall k string :: $visited_1_1[k] && k != referenceNodeID ==> edge.weights[k] <= edgeWeights[k]
+//@   loop 1.1.1 invariant forall k string :: $visited[k] ==> wg.nodes[nodeCycle].weights[k] <= edgeWeights[k]
+//@   loop 1.1.1 invariant forall k string :: has(edgeWeights, k) ==> ($visited_1_1[k] && k != referenceNodeID && edgeWeights[k] == edge.weights[k]) || ($visited[k] && edgeWeights[k] == wg.nodes[nodeCycle].weights[k])
+
+// calculateNodeWeightAndFixDependencies: the node that closes a tuple cycle gets weight Infinite for every type reachable through one of its
+// edges (its own placeholder "R#"+node excluded), then its dependants are patched.
+//@ spec cycleRootKind(n *WeightedAuthorizationModelNode) bool =
+//@   n.nodeType == SpecificTypeAndRelation || (n.nodeType == OperatorNode && n.label == UnionOperator)
+
+//@ func (*WeightedAuthorizationModelGraph).calculateNodeWeightAndFixDependencies
+//@   props C04 C05 C11
+//@   requires wg != nil && wg.nodes[nodeID] != nil && wfEdges(wg.edges[nodeID]) && tupleCycleDependencies != nil
+//@   requires wfDeps(wg, tupleCycleDependencies[nodeID]) && sepWildcards() && sepDeps(tupleCycleDependencies)
+//@   requires forall e *WeightedAuthorizationModelEdge :: allocated(e) ==> weightsInRange(e.weights)
+//@   requires forall n *WeightedAuthorizationModelNode :: allocated(n) ==> weightsInRange(n.weights)
+//@   ensures error_is_sentinel: err != nil ==> wraps(err, ErrTupleCycle) || wraps(err, ErrInvalidModel)
+//@   ensures rejects_wrong_kind: !old(cycleRootKind(wg.nodes[nodeID])) ==> err != nil && wraps(err, ErrTupleCycle)
+//@   ensures rejects_no_edge: old(cycleRootKind(wg.nodes[nodeID])) && old(len(wg.edges[nodeID])) == 0 ==> err != nil && wraps(err, ErrInvalidModel)
+//@   -- (F-05c, repaired) accepted exactly when some edge offers a key other than the node's own placeholder
+//@   ensures accepted_has_terminal: old(cycleRootKind(wg.nodes[nodeID])) && old(len(wg.edges[nodeID])) > 0 && err == nil ==>
+//@                              (exists i int, k string :: 0 <= i && i < len(old(wg.edges[nodeID])) && k != "R#" + nodeID && has(old(old(wg.edges[nodeID])[i].weights), k))
+//@   ensures terminal_accepted: old(cycleRootKind(wg.nodes[nodeID])) && old(len(wg.edges[nodeID])) > 0 ==>
+//@                              (forall i int, k string :: 0 <= i && i < len(old(wg.edges[nodeID])) && k != "R#" + nodeID && has(old(old(wg.edges[nodeID])[i].weights), k) ==> err == nil)
+//@   ensures rejects_no_terminal: old(cycleRootKind(wg.nodes[nodeID])) && err != nil ==> wraps(err, ErrInvalidModel)
+//@   ensures keys_are_union_without_placeholder: err == nil ==> (forall k string :: has(old(wg.nodes[nodeID]).weights, k)
+//@                              <==> (k != "R#" + nodeID && (exists i int :: 0 <= i && i < len(old(wg.edges[nodeID])) && has(old(old(wg.edges[nodeID])[i].weights), k))))
+//@   ensures all_infinite: err == nil ==> (forall k string :: has(old(wg.nodes[nodeID]).weights, k) ==> old(wg.nodes[nodeID]).weights[k] == Infinite)
+//@   ensures dependencies_resolved: err == nil ==> !has(tupleCycleDependencies, nodeID)
+//@   ensures separated: sepWildcards()
+//@   ensures error_changes_nothing: err != nil ==> (forall n *WeightedAuthorizationModelNode :: old(allocated(n)) ==> n.weights == old(n.weights))
+//@                              && (forall e *WeightedAuthorizationModelEdge :: old(allocated(e)) ==> e.weights == old(e.weights))
+//@   loop 1 invariant fresh(weights) && weights != nil && sepWildcards()
+//@   loop 1 invariant forall k string :: has(weights, k) <==> (k != "R#" + nodeID && (exists i int :: 0 <= i && i < $i && has(wg.edges[nodeID][i].weights, k)))
+//@   loop 1 invariant forall k string :: has(weights, k) ==> weights[k] == Infinite
+//@   loop 1 invariant flat: forall i int, k string :: 0 <= i && i < $i && k != "R#" + nodeID && has(wg.edges[nodeID][i].weights, k) ==> has(weights, k)
+//@   loop 1.1 invariant fresh(weights) && weights != nil && sepWildcards()
+//@   loop 1.1 invariant forall k string :: has(weights, k) <==> (k != "R#" + nodeID && ((exists i int :: 0 <= i && i < $i_1 && has(wg.edges[nodeID][i].weights, k)) || $visited[k]))
+//@   loop 1.1 invariant forall k string :: $visited[k] ==> has(edge.weights, k)
+//@   loop 1.1 invariant forall k string :: has(weights, k) ==> weights[k] == Infinite
+//@   loop 1.1 invariant flat: forall i int, k string :: 0 <= i && i < $i_1 && k != "R#" + nodeID && has(wg.edges[nodeID][i].weights, k) ==> has(weights, k)
+//@   loop 1.1 invariant flat_cur: forall k string :: $visited[k] && k != "R#" + nodeID ==> has(weights, k)
+
+// ---------------------------------------------------------------------------------------------------------------
+// C04/C05: calculateNodeWeightFromTheEdges dispatches on the node kind and on the pending tuple cycles.
+//@ spec maxKind(n *WeightedAuthorizationModelNode) bool = n.nodeType != OperatorNode || n.label == UnionOperator
+//@ spec andKind(n *WeightedAuthorizationModelNode) bool = n.nodeType == OperatorNode && n.label == IntersectionOperator
+//@ spec butNotKind(n *WeightedAuthorizationModelNode) bool = n.nodeType == OperatorNode && n.label == ExclusionOperator
+
+//@ func (*WeightedAuthorizationModelGraph).calculateNodeWeightFromTheEdges
+//@   props C04 C05
+//@   requires wg != nil && wg.nodes[nodeID] != nil && wfEdges(wg.edges[nodeID]) && tupleCycleDependencies != nil
+//@   requires wfDeps(wg, tupleCycleDependencies[nodeID]) && sepWildcards() && sepDeps(tupleCycleDependencies)
+//@   requires forall e *WeightedAuthorizationModelEdge :: allocated(e) ==> weightsInRange(e.weights)
+//@   requires forall n *WeightedAuthorizationModelNode :: allocated(n) ==> weightsInRange(n.weights)
+//@   -- ENGINE LIMITATION: the two clauses error_is_sentinel and constraint_on_cycle_rejected need the package-initialisation fact
+//@   -- wraps(ErrContrainstTupleCycle, ErrTupleCycle) (var ErrContrainstTupleCycle = fmt.Errorf("%w: ...", ErrTupleCycle)). The engine models the
+//@   -- variable like errors.New (wraps(ErrContrainstTupleCycle, q) <==> q == ErrContrainstTupleCycle), so both stay unproved and a
+//@   -- `requires wraps(ErrContrainstTupleCycle, ErrTupleCycle)` makes the assumptions inconsistent (tried, removed). Not defects of the code.
+//@   ensures error_is_sentinel: err != nil ==> wraps(err, ErrModelCycle) || wraps(err, ErrTupleCycle) || wraps(err, ErrInvalidModel)
+//@   -- C05: an intersection or exclusion operator with a pending tuple cycle is rejected
+//@   ensures constraint_on_cycle_rejected: len(tupleCycles) > 0 && (old(andKind(wg.nodes[nodeID])) || old(butNotKind(wg.nodes[nodeID])))
+//@                              ==> err != nil && wraps(err, ErrTupleCycle)
+//@   -- the same two facts in the form that does not depend on the initialiser (DESIGN C05.3: "==> ErrContrainstTupleCycle")
+//@   ensures error_is_sentinel_or_constraint: err != nil ==> wraps(err, ErrModelCycle) || wraps(err, ErrTupleCycle) || wraps(err, ErrInvalidModel) || err == ErrContrainstTupleCycle
+//@   ensures constraint_on_cycle_is_constraint_error: len(tupleCycles) > 0 && (old(andKind(wg.nodes[nodeID])) || old(butNotKind(wg.nodes[nodeID]))) ==> err == ErrContrainstTupleCycle
+//@   -- no pending cycle: the pending list is passed through and the node gets the weights of the strategy of its kind
+//@   ensures no_cycle_passthrough: len(tupleCycles) == 0 ==> result0 == tupleCycles
+//@   ensures max_rejects_iff_no_edge: len(tupleCycles) == 0 && old(maxKind(wg.nodes[nodeID])) ==> ((err != nil) <==> (len(old(wg.edges[nodeID])) == 0 && !terminalKind(old(wg.nodes[nodeID]))))
+//@   ensures max_keys_are_union: len(tupleCycles) == 0 && old(maxKind(wg.nodes[nodeID])) && err == nil ==> (forall k string :: has(old(wg.nodes[nodeID]).weights, k)
+//@                              <==> (exists i int :: 0 <= i && i < len(old(wg.edges[nodeID])) && has(old(old(wg.edges[nodeID])[i].weights), k)))
+//@   ensures max_value_is_upper_bound: len(tupleCycles) == 0 && old(maxKind(wg.nodes[nodeID])) && err == nil ==> (forall k string, i int :: 0 <= i && i < len(old(wg.edges[nodeID])) && has(old(old(wg.edges[nodeID])[i].weights), k)
+//@                              ==> old(old(wg.edges[nodeID])[i].weights[k]) <= old(wg.nodes[nodeID]).weights[k])
+//@   ensures max_value_is_attained: len(tupleCycles) == 0 && old(maxKind(wg.nodes[nodeID])) && err == nil ==> (forall k string :: has(old(wg.nodes[nodeID]).weights, k)
+//@                              ==> (exists i int :: 0 <= i && i < len(old(wg.edges[nodeID])) && has(old(old(wg.edges[nodeID])[i].weights), k) && old(old(wg.edges[nodeID])[i].weights[k]) == old(wg.nodes[nodeID]).weights[k]))
+//@   ensures and_keys_are_intersection: len(tupleCycles) == 0 && old(andKind(wg.nodes[nodeID])) && err == nil ==> (forall k string :: has(old(wg.nodes[nodeID]).weights, k)
+//@                              <==> (forall i int :: 0 <= i && i < len(old(wg.edges[nodeID])) ==> has(old(old(wg.edges[nodeID])[i].weights), k)))
+//@   -- (dropped, solvers: and_rejected_has_no_common_type - the forall/exists alternation of the callee clause is not re-proved by any solver)
+//@   ensures and_accepted_has_common_type: len(tupleCycles) == 0 && old(andKind(wg.nodes[nodeID])) && err == nil && len(old(wg.edges[nodeID])) > 0
+//@                              ==> (exists k string :: forall i int :: 0 <= i && i < len(old(wg.edges[nodeID])) ==> has(old(old(wg.edges[nodeID])[i].weights), k))
+//@   ensures and_value_is_upper_bound: len(tupleCycles) == 0 && old(andKind(wg.nodes[nodeID])) && err == nil ==> (forall k string, i int :: 0 <= i && i < len(old(wg.edges[nodeID])) && has(old(wg.nodes[nodeID]).weights, k)
+//@                              ==> old(old(wg.edges[nodeID])[i].weights[k]) <= old(wg.nodes[nodeID]).weights[k])
+//@   ensures butnot_rejects_iff_no_edge: len(tupleCycles) == 0 && old(butNotKind(wg.nodes[nodeID])) ==> ((err != nil) <==> (len(old(wg.edges[nodeID])) == 0))
+//@   ensures butnot_keys_are_base_keys: len(tupleCycles) == 0 && old(butNotKind(wg.nodes[nodeID])) && err == nil ==> (forall k string :: has(old(wg.nodes[nodeID]).weights, k)
+//@                              <==> (exists i int :: 0 <= i && i < len(old(wg.edges[nodeID])) - 1 && has(old(old(wg.edges[nodeID])[i].weights), k)))
+//@   ensures butnot_value_is_attained: len(tupleCycles) == 0 && old(butNotKind(wg.nodes[nodeID])) && err == nil ==> (forall k string :: has(old(wg.nodes[nodeID]).weights, k)
+//@                              ==> (exists i int :: 0 <= i && i < len(old(wg.edges[nodeID])) && has(old(old(wg.edges[nodeID])[i].weights), k) && old(old(wg.edges[nodeID])[i].weights[k]) == old(wg.nodes[nodeID]).weights[k]))
+//@   ensures other_operator_untouched: len(tupleCycles) == 0 && old(wg.nodes[nodeID].nodeType) == OperatorNode && !old(maxKind(wg.nodes[nodeID])) && !old(andKind(wg.nodes[nodeID])) && !old(butNotKind(wg.nodes[nodeID]))
+//@                              ==> err == nil && old(wg.nodes[nodeID]).weights == old(wg.nodes[nodeID].weights)
+//@   -- pending cycle closed by this node (a relation or a union operator that is referenced by the pending list)
+//@   ensures cycle_root_resolved: len(tupleCycles) > 0 && old(cycleRootKind(wg.nodes[nodeID])) && (exists i int :: 0 <= i && i < len(tupleCycles) && tupleCycles[i] == nodeID) && err == nil
+//@                              ==> (forall i int :: 0 <= i && i < len(result0) ==> result0[i] != nodeID) && !has(tupleCycleDependencies, nodeID)
+//@                                  && (forall k string :: has(old(wg.nodes[nodeID]).weights, k) ==> old(wg.nodes[nodeID]).weights[k] == Infinite)
+
+// ---------------------------------------------------------------------------------------------------------------
+// C04/C05: calculateEdgeWeight, the parts outside the recursion (the call of calculateNodeWeight is used through its weak trusted contract,
+// so nothing is known about the heap after it except what the function reads afterwards).
+//@ spec weightHop(e *WeightedAuthorizationModelEdge) bool = e.edgeType == TTUEdge || e.edgeType == DirectEdge
+
+//@ func (*WeightedAuthorizationModelGraph).calculateEdgeWeight
+//@   props C04 C05
+//@   requires wg != nil && edge != nil && edge.from != nil && edge.to != nil && tupleCycleDependencies != nil && wfPath(ancestorPath)
+//@   ensures error_is_sentinel: err != nil ==> wraps(err, ErrModelCycle) || wraps(err, ErrTupleCycle) || wraps(err, ErrInvalidModel)
+//@   -- self edge: a placeholder weight, the edge becomes a dependant of its own node, the node is reported as an open tuple cycle
+//@   ensures self_edge_placeholder: old(edge.from.uniqueLabel) == old(edge.to.uniqueLabel) && old(weightHop(edge)) ==> err == nil && len(result0) == 1 && result0[0] == old(edge.to.uniqueLabel)
+//@                              && (forall k string :: has(edge.weights, k) <==> k == "R#" + old(edge.to.uniqueLabel)) && edge.weights["R#" + old(edge.to.uniqueLabel)] == Infinite
+//@   ensures self_edge_recorded: old(edge.from.uniqueLabel) == old(edge.to.uniqueLabel) && old(weightHop(edge)) ==> len(tupleCycleDependencies[old(edge.to.uniqueLabel)]) == old(len(tupleCycleDependencies[edge.to.uniqueLabel])) + 1
+//@                              && tupleCycleDependencies[old(edge.to.uniqueLabel)][old(len(tupleCycleDependencies[edge.to.uniqueLabel]))] == edge
+//@   -- C05 (statement): a self reference that needs no tuple is a rewrite-only cycle and must be rejected (F-05a, repaired by ceeea61).
+//@   -- (weightHop: direct or tuple-to-userset edge; a direct SELF edge always ends in a relation node, i.e. is a tupleHop)
+//@   ensures self_edge_without_hop_rejected: old(edge.from.uniqueLabel) == old(edge.to.uniqueLabel) && !old(weightHop(edge)) ==> err != nil && wraps(err, ErrModelCycle)
+//@   -- target without weights after the descent: placeholder (tuple cycle) or ErrModelCycle
+//@   ensures unresolved_target: old(edge.from.uniqueLabel) != old(edge.to.uniqueLabel) && err == nil && len(edge.to.weights) == 0
+//@                              ==> (forall k string :: has(edge.weights, k) <==> k == "R#" + edge.to.uniqueLabel) && edge.weights["R#" + edge.to.uniqueLabel] == Infinite
+//@   -- hop arithmetic: every key of the target's weights is copied, +1 for direct/TTU edges unless Infinite
+//@   ensures keys_copied: old(edge.from.uniqueLabel) != old(edge.to.uniqueLabel) && err == nil && len(edge.to.weights) != 0 ==> (forall k string :: has(edge.weights, k) <==> has(edge.to.weights, k))
+//@   ensures hop_added: old(edge.from.uniqueLabel) != old(edge.to.uniqueLabel) && err == nil && len(edge.to.weights) != 0 ==> (forall k string :: has(edge.weights, k)
+//@                              ==> edge.weights[k] == ite(weightHop(edge) && edge.to.weights[k] != Infinite, edge.to.weights[k] + 1, edge.to.weights[k]))
+//@   loop 2 invariant fresh(weights) && weights != nil && edge.to != nil && edge.from != nil
+//@   loop 2 invariant forall k string :: has(weights, k) <==> $visited[k]
+//@   loop 2 invariant forall k string :: $visited[k] ==> has(edge.to.weights, k) && weights[k] == edge.to.weights[k]
+//@   loop 2 invariant forall m map[string]int, k string :: m != weights ==> has(m, k) == pre(has(m, k)) && m[k] == pre(m[k])
+//@   loop 3 invariant edge.weights != nil && edge.to != nil && edge.weights != edge.to.weights
+//@   loop 3 invariant forall k string :: has(edge.weights, k) <==> has(edge.to.weights, k)
+//@   loop 3 invariant forall k string :: has(edge.weights, k) ==> edge.weights[k] == ite($visited[k] && edge.to.weights[k] != Infinite, edge.to.weights[k] + 1, edge.to.weights[k])
+//@   loop 3 invariant forall m map[string]int, k string :: m != edge.weights ==> has(m, k) == pre(has(m, k)) && m[k] == pre(m[k])
+
+// ---------------------------------------------------------------------------------------------------------------
+// C10: direct assignments. restrictions(typeDef, relation) is the type-restriction list of the relation ([] when the
+// relation has no metadata entry); targetLabel gives the label of the node a restriction points to.
+//@ spec restrictions(typeDef *openfgav1.TypeDefinition, relation string) []*openfgav1.RelationReference =
+//@   typeDef.GetMetadata().GetRelations()[relation].GetDirectlyRelatedUserTypes()
+
+//@ spec targetLabel(d *openfgav1.RelationReference) string =
+//@   ite(d.GetRelationOrWildcard() == nil, d.GetType(), ite(d.GetWildcard() != nil, d.GetType() + ":*", d.GetType() + "#" + d.GetRelation()))
+
+//@ func (*WeightedAuthorizationModelGraphBuilder).parseThis
+//@   props C10 C05 C11 C13
+//@   requires wg != nil && wg.nodes != nil && wg.edges != nil && wfNodes(wg)
+//@   requires parent_in_graph: parentNode != nil && wg.nodes[parentNode.uniqueLabel] == parentNode
+//@   requires parent_list_wf: wfEdgeList(wg.edges[parentNode.uniqueLabel])
+//@   ensures never_fails: err == nil
+//@   ensures error_is_invalid_model: err != nil ==> wraps(err, ErrInvalidModel)
+//@   -- every restriction is represented by a direct edge to its target node
+//@   ensures every_restriction_has_edge: forall j int :: 0 <= j && j < len(restrictions(typeDef, relation)) ==> hasSameEdge(wg.edges[parentNode.uniqueLabel], targetLabel(restrictions(typeDef, relation)[j]), DirectEdge, "")
+//@   -- the list is only extended, by direct edges parent -> target of some restriction, one per distinct target
+//@   ensures list_extended: len(wg.edges[parentNode.uniqueLabel]) >= old(len(wg.edges[parentNode.uniqueLabel]))
+//@                            && (forall i int :: 0 <= i && i < old(len(wg.edges[parentNode.uniqueLabel])) ==> wg.edges[parentNode.uniqueLabel][i] == old(wg.edges[parentNode.uniqueLabel][i]))
+//@   ensures new_edges_direct: forall i int :: old(len(wg.edges[parentNode.uniqueLabel])) <= i && i < len(wg.edges[parentNode.uniqueLabel]) ==> fresh(wg.edges[parentNode.uniqueLabel][i]) && wg.edges[parentNode.uniqueLabel][i].from == parentNode
+//@                            && wg.edges[parentNode.uniqueLabel][i].edgeType == DirectEdge && wg.edges[parentNode.uniqueLabel][i].tuplesetRelation == ""
+//@   ensures new_edges_distinct_targets: forall a int, b int :: old(len(wg.edges[parentNode.uniqueLabel])) <= a && a < b && b < len(wg.edges[parentNode.uniqueLabel]) ==> wg.edges[parentNode.uniqueLabel][a].to.uniqueLabel != wg.edges[parentNode.uniqueLabel][b].to.uniqueLabel
+//@   -- nodes: existing ones are kept, every target exists afterwards, a new node is the target of a restriction and has its kind
+//@   ensures existing_nodes_kept: forall k string :: old(wg.nodes[k]) != nil ==> wg.nodes[k] == old(wg.nodes[k])
+//@   ensures other_headers_kept: forall k string :: k != parentNode.uniqueLabel ==> wg.edges[k] == old(wg.edges[k]) && has(wg.edges, k) == old(has(wg.edges, k))
+//@   -- graph and representation invariants are preserved
+//@   ensures graph_ok_nodes: wfNodes(wg)
+//@   ensures parent_list_ok: wfEdgeList(wg.edges[parentNode.uniqueLabel])
+//@   loop 1 invariant nodes_wf: wfNodes(wg)
+//@   loop 1 invariant parent_in_graph: wg.nodes[parentNode.uniqueLabel] == parentNode
+//@   loop 1 invariant parent_list_wf: wfEdgeList(wg.edges[parentNode.uniqueLabel])
+//@   loop 1 invariant extended: len(wg.edges[parentNode.uniqueLabel]) >= old(len(wg.edges[parentNode.uniqueLabel]))
+//@                            && (forall i int :: 0 <= i && i < old(len(wg.edges[parentNode.uniqueLabel])) ==> wg.edges[parentNode.uniqueLabel][i] == old(wg.edges[parentNode.uniqueLabel][i]))
+//@   loop 1 invariant direct: forall i int :: old(len(wg.edges[parentNode.uniqueLabel])) <= i && i < len(wg.edges[parentNode.uniqueLabel]) ==> fresh(wg.edges[parentNode.uniqueLabel][i]) && wg.edges[parentNode.uniqueLabel][i].from == parentNode
+//@                            && wg.edges[parentNode.uniqueLabel][i].edgeType == DirectEdge && wg.edges[parentNode.uniqueLabel][i].tuplesetRelation == ""
+//@   loop 1 invariant distinct: forall a int, b int :: old(len(wg.edges[parentNode.uniqueLabel])) <= a && a < b && b < len(wg.edges[parentNode.uniqueLabel]) ==> wg.edges[parentNode.uniqueLabel][a].to.uniqueLabel != wg.edges[parentNode.uniqueLabel][b].to.uniqueLabel
+//@   loop 1 invariant nodes_kept: forall k string :: old(wg.nodes[k]) != nil ==> wg.nodes[k] == old(wg.nodes[k])
+//@   loop 1 invariant headers: forall k string :: k != parentNode.uniqueLabel ==> wg.edges[k] == old(wg.edges[k]) && has(wg.edges, k) == old(has(wg.edges, k))
+//@   loop 1 invariant covered: forall j int :: 0 <= j && j < $i ==> hasSameEdge(wg.edges[parentNode.uniqueLabel], targetLabel(restrictions(typeDef, relation)[j]), DirectEdge, "")
+
+// ---------------------------------------------------------------------------------------------------------------
+// C10/C05: tuple-to-userset "computed from tupleset". ttuParents = the directly related types of the tupleset relation.
+//@ spec ttuTupleset(rw *openfgav1.TupleToUserset) string = rw.GetTupleset().GetRelation()
+//@ spec ttuComputed(rw *openfgav1.TupleToUserset) string = rw.GetComputedUserset().GetRelation()
+//@ spec ttuParents(typeDef *openfgav1.TypeDefinition, rw *openfgav1.TupleToUserset) []*openfgav1.RelationReference =
+//@   typeDef.GetMetadata().GetRelations()[ttuTupleset(rw)].GetDirectlyRelatedUserTypes()
+//@ spec ttuTarget(d *openfgav1.RelationReference, rw *openfgav1.TupleToUserset) string = d.GetType() + "#" + ttuComputed(rw)
+//@ spec ttuLabel(typeDef *openfgav1.TypeDefinition, rw *openfgav1.TupleToUserset) string = typeDef.GetType() + "#" + ttuTupleset(rw)
+
+//@ func (*WeightedAuthorizationModelGraphBuilder).parseTupleToUserset
+//@   props C10 C05 C13
+//@   requires wg != nil && wg.nodes != nil && wg.edges != nil && wfNodes(wg)
+//@   requires parent_in_graph: parentNode != nil && wg.nodes[parentNode.uniqueLabel] == parentNode
+//@   requires parent_list_wf: wfEdgeList(wg.edges[parentNode.uniqueLabel])
+//@   -- C05: rejected iff the tupleset relation has no metadata entry, or no directly related type, or a parent type lacks the computed relation
+//@   ensures rejects_no_metadata: !has(typeDef.GetMetadata().GetRelations(), ttuTupleset(rewrite)) ==> err != nil
+//@   ensures rejects_no_parent_type: len(ttuParents(typeDef, rewrite)) == 0 ==> err != nil
+//@   ensures rejects_missing_relation: (exists j int :: 0 <= j && j < len(ttuParents(typeDef, rewrite)) && !definesRelation(model, ttuParents(typeDef, rewrite)[j].GetType(), ttuComputed(rewrite))) ==> err != nil
+//@   ensures accepts_otherwise: err != nil ==> !has(typeDef.GetMetadata().GetRelations(), ttuTupleset(rewrite)) || len(ttuParents(typeDef, rewrite)) == 0
+//@                            || (exists j int :: 0 <= j && j < len(ttuParents(typeDef, rewrite)) && !definesRelation(model, ttuParents(typeDef, rewrite)[j].GetType(), ttuComputed(rewrite)))
+//@   ensures error_is_invalid_model: err != nil ==> wraps(err, ErrInvalidModel)
+//@   -- C10: the parent's list is only extended, by TTU edges labelled type#tupleset, one per distinct parent type
+//@   ensures list_extended: len(wg.edges[parentNode.uniqueLabel]) >= old(len(wg.edges[parentNode.uniqueLabel]))
+//@                            && (forall i int :: 0 <= i && i < old(len(wg.edges[parentNode.uniqueLabel])) ==> wg.edges[parentNode.uniqueLabel][i] == old(wg.edges[parentNode.uniqueLabel][i]))
+//@   ensures new_edges_ttu: forall i int :: old(len(wg.edges[parentNode.uniqueLabel])) <= i && i < len(wg.edges[parentNode.uniqueLabel]) ==> fresh(wg.edges[parentNode.uniqueLabel][i])
+//@                            && wg.edges[parentNode.uniqueLabel][i].from == parentNode && wg.edges[parentNode.uniqueLabel][i].edgeType == TTUEdge
+//@                            && wg.edges[parentNode.uniqueLabel][i].tuplesetRelation == ttuLabel(typeDef, rewrite)
+//@   ensures new_edges_distinct_targets: forall a int, b int :: old(len(wg.edges[parentNode.uniqueLabel])) <= a && a < b && b < len(wg.edges[parentNode.uniqueLabel])
+//@                            ==> wg.edges[parentNode.uniqueLabel][a].to.uniqueLabel != wg.edges[parentNode.uniqueLabel][b].to.uniqueLabel
+//@   ensures every_parent_type_has_edge: err == nil ==> (forall j int :: 0 <= j && j < len(ttuParents(typeDef, rewrite))
+//@                            ==> hasSameEdge(wg.edges[parentNode.uniqueLabel], ttuTarget(ttuParents(typeDef, rewrite)[j], rewrite), TTUEdge, ttuLabel(typeDef, rewrite)))
+//@   ensures existing_nodes_kept: forall k string :: old(wg.nodes[k]) != nil ==> wg.nodes[k] == old(wg.nodes[k])
+//@   ensures other_headers_kept: forall k string :: k != parentNode.uniqueLabel ==> wg.edges[k] == old(wg.edges[k]) && has(wg.edges, k) == old(has(wg.edges, k))
+//@   ensures graph_ok_nodes: wfNodes(wg)
+//@   ensures parent_list_ok: wfEdgeList(wg.edges[parentNode.uniqueLabel])
+//@   loop 1 invariant nodes_wf: wfNodes(wg)
+//@   loop 1 invariant parent_in_graph: wg.nodes[parentNode.uniqueLabel] == parentNode
+//@   loop 1 invariant parent_list_wf: wfEdgeList(wg.edges[parentNode.uniqueLabel])
+//@   loop 1 invariant defined_so_far: forall j int :: 0 <= j && j < $i ==> definesRelation(model, ttuParents(typeDef, rewrite)[j].GetType(), ttuComputed(rewrite))
+//@   loop 1 invariant extended: len(wg.edges[parentNode.uniqueLabel]) >= old(len(wg.edges[parentNode.uniqueLabel]))
+//@                            && (forall i int :: 0 <= i && i < old(len(wg.edges[parentNode.uniqueLabel])) ==> wg.edges[parentNode.uniqueLabel][i] == old(wg.edges[parentNode.uniqueLabel][i]))
+//@   loop 1 invariant ttu: forall i int :: old(len(wg.edges[parentNode.uniqueLabel])) <= i && i < len(wg.edges[parentNode.uniqueLabel]) ==> fresh(wg.edges[parentNode.uniqueLabel][i])
+//@                            && wg.edges[parentNode.uniqueLabel][i].from == parentNode && wg.edges[parentNode.uniqueLabel][i].edgeType == TTUEdge
+//@                            && wg.edges[parentNode.uniqueLabel][i].tuplesetRelation == ttuLabel(typeDef, rewrite)
+//@   loop 1 invariant distinct: forall a int, b int :: old(len(wg.edges[parentNode.uniqueLabel])) <= a && a < b && b < len(wg.edges[parentNode.uniqueLabel])
+//@                            ==> wg.edges[parentNode.uniqueLabel][a].to.uniqueLabel != wg.edges[parentNode.uniqueLabel][b].to.uniqueLabel
+//@   loop 1 invariant covered: forall j int :: 0 <= j && j < $i
+//@                            ==> hasSameEdge(wg.edges[parentNode.uniqueLabel], ttuTarget(ttuParents(typeDef, rewrite)[j], rewrite), TTUEdge, ttuLabel(typeDef, rewrite))
+//@   loop 1 invariant nodes_kept: forall k string :: old(wg.nodes[k]) != nil ==> wg.nodes[k] == old(wg.nodes[k])
+//@   loop 1 invariant headers: forall k string :: k != parentNode.uniqueLabel ==> wg.edges[k] == old(wg.edges[k]) && has(wg.edges, k) == old(has(wg.edges, k))
+
+// ---------------------------------------------------------------------------------------------------------------
+// C10/C05: the recursive descent over a rewrite. A-TREE: rewrite trees are finite (height decreases towards the children).
+//@ opaque rwHeight(u *openfgav1.Userset) int
+//@ axiom rw_height_nonneg: forall u *openfgav1.Userset :: rwHeight(u) >= 0
+//@ axiom rw_union_children: forall u *openfgav1.Userset, i int :: u != nil && 0 <= i && i < len(u.GetUnion().GetChild()) ==> rwHeight(u.GetUnion().GetChild()[i]) < rwHeight(u)
+//@ axiom rw_intersection_children: forall u *openfgav1.Userset, i int :: u != nil && 0 <= i && i < len(u.GetIntersection().GetChild()) ==> rwHeight(u.GetIntersection().GetChild()[i]) < rwHeight(u)
+//@ axiom rw_difference_children: forall u *openfgav1.Userset :: u != nil && u.GetDifference() != nil ==> rwHeight(u.GetDifference().GetBase()) < rwHeight(u) && rwHeight(u.GetDifference().GetSubtract()) < rwHeight(u)
+
+// Well-formed oneof: the wrapper stored in Userset.Userset is never a typed nil pointer (parseRewrite dereferences it without a check,
+// as the generated getters do), and a Difference wrapper has its payload. Stated for every Userset (no Userset is written or allocated
+// by the builder, so the fact is stable); it is an assumption on the input model that Build passes on to its callers.
+//@ spec wfUserset(u *openfgav1.Userset) bool =
+//@      (is(u.GetUserset(), *openfgav1.Userset_This) ==> dyn(u.GetUserset(), *openfgav1.Userset_This) != nil)
+//@   && (is(u.GetUserset(), *openfgav1.Userset_ComputedUserset) ==> dyn(u.GetUserset(), *openfgav1.Userset_ComputedUserset) != nil)
+//@   && (is(u.GetUserset(), *openfgav1.Userset_TupleToUserset) ==> dyn(u.GetUserset(), *openfgav1.Userset_TupleToUserset) != nil)
+//@   && (is(u.GetUserset(), *openfgav1.Userset_Union) ==> dyn(u.GetUserset(), *openfgav1.Userset_Union) != nil)
+//@   && (is(u.GetUserset(), *openfgav1.Userset_Intersection) ==> dyn(u.GetUserset(), *openfgav1.Userset_Intersection) != nil)
+//@   && (is(u.GetUserset(), *openfgav1.Userset_Difference) ==> dyn(u.GetUserset(), *openfgav1.Userset_Difference) != nil && u.GetDifference() != nil)
+
+//@ func (*WeightedAuthorizationModelGraphBuilder).parseRewrite
+//@   props C10 C05 C13
+//@   decreases rwHeight(rewrite)
+//@   requires wg != nil && wg.nodes != nil && wg.edges != nil && wfNodes(wg)
+//@   requires parent_in_graph: parentNode != nil && wg.nodes[parentNode.uniqueLabel] == parentNode
+//@   requires wf_oneofs: forall u *openfgav1.Userset :: wfUserset(u)
+//@   -- NOT required: wfEdgeList(wg.edges[parentNode.uniqueLabel]) (needed by parseThis/parseTupleToUserset, whose `pre:` obligations therefore
+//@   -- fail here): it cannot be re-established for the operator node of the recursive calls without "all lists are well-formed" - an
+//@   -- invariant over (label, index) that the solvers cannot carry through the leaf parsers - or ULID freshness (A-ULID); see NOTES.md
+//@   ensures error_is_invalid_model: err != nil ==> wraps(err, ErrInvalidModel)
+//@   ensures existing_nodes_kept: forall k string :: old(wg.nodes[k]) != nil ==> wg.nodes[k] == old(wg.nodes[k])
+//@   ensures graph_ok_nodes: wfNodes(wg)
+//@   loop 1 invariant nodes_wf: wfNodes(wg)
+//@   loop 1 invariant nodes_kept: forall k string :: old(wg.nodes[k]) != nil ==> wg.nodes[k] == old(wg.nodes[k])
+//@   loop 1 invariant op_in_graph: operatorNode != nil && wg.nodes[operatorNode.uniqueLabel] == operatorNode
+//@   loop 1 invariant union_children: is(rewrite.GetUserset(), *openfgav1.Userset_Union) ==> children == rewrite.GetUnion().GetChild()
+//@   loop 1 invariant intersection_children: is(rewrite.GetUserset(), *openfgav1.Userset_Intersection) ==> children == rewrite.GetIntersection().GetChild()
+//@   loop 1 invariant difference_children: is(rewrite.GetUserset(), *openfgav1.Userset_Difference) ==> len(children) == 2
+//@                            && children[0] == rewrite.GetDifference().GetBase() && children[1] == rewrite.GetDifference().GetSubtract()
+//@   loop 1 invariant operator_kind: is(rewrite.GetUserset(), *openfgav1.Userset_Union) || is(rewrite.GetUserset(), *openfgav1.Userset_Intersection)
+//@                            || is(rewrite.GetUserset(), *openfgav1.Userset_Difference) || len(children) == 0
+//@   loop 1 invariant rewrite_non_nil: len(children) > 0 ==> rewrite != nil
+//@   loop 1 invariant child_heights: forall i int :: 0 <= i && i < len(children) ==> rwHeight(children[i]) < rwHeight(rewrite)
+
+// ---------------------------------------------------------------------------------------------------------------
+// C05: every error of the weight assignment wraps one of the three sentinels. calculateNodeWeight/calculateEdgeWeight (the DFS) are out
+// of scope as a whole: calculateNodeWeight gets this weak TRUSTED contract (the one sanctioned use of `trusted`), its callers are verified
+// against it.
+//@ func (*WeightedAuthorizationModelGraph).calculateNodeWeight
+//@   props C05
+//@   trusted
+//@   ensures error_is_sentinel: err != nil ==> wraps(err, ErrModelCycle) || wraps(err, ErrTupleCycle) || wraps(err, ErrInvalidModel)
+//@   -- frame needed by calculateEdgeWeight (the descent appends to copies of the path, it never overwrites an element within its length,
+//@   -- and it never writes the from/to fields of an edge)
+//@   ensures path_kept: forall i int :: 0 <= i && i < len(ancestorPath) ==> ancestorPath[i] == old(ancestorPath[i])
+
+//@ func (*WeightedAuthorizationModelGraph).AssignWeights
+//@   props C05
+//@   requires wg != nil
+//@   ensures error_is_sentinel: err != nil ==> wraps(err, ErrModelCycle) || wraps(err, ErrTupleCycle) || wraps(err, ErrInvalidModel)
+
+//@ func (*WeightedAuthorizationModelGraphBuilder).Build
+//@   props C10 C05 C13
+//@   readonly_model
+//@   requires wf_oneofs: forall u *openfgav1.Userset :: wfUserset(u)
+//@   ensures error_is_sentinel: err != nil ==> wraps(err, ErrModelCycle) || wraps(err, ErrTupleCycle) || wraps(err, ErrInvalidModel)
+//@   ensures graph_iff_accepted: (err == nil) <==> (result0 != nil)
+//@   ensures fresh_graph: result0 != nil ==> fresh(result0)
+//@   loop 1 invariant graph: wb != nil && fresh(wb) && wb.nodes != nil && wb.edges != nil && fresh(wb.nodes) && fresh(wb.edges) && wfNodes(wb)
+//@   loop 1.1 invariant graph: wb != nil && fresh(wb) && wb.nodes != nil && wb.edges != nil && fresh(wb.nodes) && fresh(wb.edges) && wfNodes(wb)
+//@   loop 1.2 invariant graph: wb != nil && fresh(wb) && wb.nodes != nil && wb.edges != nil && fresh(wb.nodes) && fresh(wb.edges) && wfNodes(wb)
